@@ -868,9 +868,14 @@ class Project(MessageHandler):
             # Estimate days needed for effort
             work_days_needed: float = total_effort_seconds / daily_capacity_seconds if daily_capacity_seconds > 0 else 0
             # Add gap time (calendar days)
-            gap_days: float = total_gap_seconds / 86400
-            # Total calendar days (with 50% buffer for weekends/non-working days)
-            total_days_needed = max(total_days_needed, int((work_days_needed + gap_days) * 1.5) + 7)
+            try:
+                gap_days: float = total_gap_seconds / 86400
+                # Total calendar days (with 50% buffer for weekends/non-working days)
+                total_days_needed = max(total_days_needed, int((work_days_needed + gap_days) * 1.5) + 7)
+            except (OverflowError, ValueError):
+                # Work or gaps no number can hold: nothing to extend to; what does not fit the
+                # declared horizon stays unscheduled
+                return
 
         # Calculate minimum required end date
         try:
